@@ -2,6 +2,7 @@ package props
 
 import (
 	"fmt"
+	"math"
 	"sort"
 
 	"github.com/foxglove/mcap/go/mcap"
@@ -36,6 +37,16 @@ func (p *c08) Draw(t *rapid.T, tier string) *runner.Scenario {
 	lim.MaxPayload = 200
 	lim.Rejects = true
 	wl := gen.Workload(t, lim)
+	if rapid.IntRange(0, 5).Draw(t, "uniform_time") == 0 {
+		// every message at one and the same corner value: the earliest and the latest time coincide
+		// with what an implementation may use as "nothing seen yet"
+		v := pick(t, "uniform_time.value", uint64(0), uint64(1), uint64(1<<63-1), uint64(1<<63), uint64(math.MaxUint64-1), uint64(math.MaxUint64))
+		for i := range wl.Ops {
+			if wl.Ops[i].Kind == scen.OpMessage {
+				wl.Ops[i].LogTime = v
+			}
+		}
+	}
 	cfg := gen.Cfg(t, lim)
 	if rapid.IntRange(0, 3).Draw(t, "force_stats") != 0 {
 		cfg.SkipStatistics = false
